@@ -352,7 +352,7 @@ MESSAGE_RECEIVED_OBLIGATIONS = [ob_sd_message_received]
 def _sdm_head(vc, v, entering):
     vc.stash("sdm.entering", entering)
     if entering:
-        vc.stash("sdm.entry", v["entry"])
+        vc.stash("sdm.entry", v["$target"])
 
 
 LOOPS = {
